@@ -144,6 +144,7 @@ theorem en_finishRun (c : Cfg) (st : StB) (s : Nat) (x : Exit) (hsn : s < c.n) (
     cases x with
     | success => exact ⟨0, _, rfl⟩
     | cancelled => exact ⟨0, _, rfl⟩
+    | crashed => exact ⟨0, _, rfl⟩
     | timeout =>
       refine ⟨0, ?_⟩
       simp only [verdict]
